@@ -199,7 +199,8 @@ CHECKS = {
         "level_note": "trusted: crypto/md5, the reference weak hash written from the format description.",
         "rule": ("rapid draws (new tree, old-build kind, compression). Non-trivial: a file with >=2 blocks and a short tail, or an empty file "
                  "beside a non-empty one. Distinct: SHA-1 of the spec."),
-        "assumptions": [],
+        "assumptions": ["one case in eight is a single-file build: the build is one regular file, walked, signed, diffed and validated through its path (pools.New; the harness opens every build through pools.New, as butler does)",
+                        ],
         "required_classes": {"quick": ["file:exact-block-multiple", "tree:empty-file-beside-non-empty", "comp:gzip", "comp:brotli", "tree:no-files"],
                              "thorough": ["file:exact-block-multiple", "tree:empty-file-beside-non-empty", "comp:gzip", "comp:brotli", "tree:no-files", "tree:symlinks"]},
         "stages": [rapid("signature", "TestProp", 4800, 192000, qs=16, ts=16, qt=600, tt=5400)],
